@@ -20,7 +20,7 @@ ToSet(seq) == {seq[i] : i \in DOMAIN seq}
 
 DerivOps == {"subslice", "get_slice", "offset", "split_at", "get_ref", "get_array_ref", "to_slice", "ref_at",
              "array_from_slice", "as_volatile_slice", "root", "compute_end_offset", "len",
-             "get_atomic_ref", "aligned_as_ref", "aligned_as_mut"}
+             "get_atomic_ref", "aligned_as_ref", "aligned_as_mut", "bv_from_slice", "bv_from_mut_slice"}
 GuardOps == {"ptr_guard"}
 WriteOps == {"write", "write_slice", "write_obj", "store", "copy_from", "copy_to_volatile_slice",
              "arr_copy_to_volatile_slice", "read_volatile_from", "read_exact_volatile_from", "read_cursor", "read_exact_cursor",
